@@ -124,7 +124,9 @@ class BtProp(Prop):
     invalid_block = None   # (profile, clauses not judged): extra implementation-only scenarios with INVALID outcomes
     assumptions = ["visitors / handlers do not mutate the tree mid-tick", "user callbacks do not raise",
                    "integer clock (fake time module installed by the harness)",
-                   "leaf outcomes are SUCCESS / FAILURE / RUNNING"]
+                   "leaf outcomes are SUCCESS / FAILURE / RUNNING in the model, the theorems (ValidEnv) and the "
+                   "correspondence; C03 / C04 / C09 add an implementation-only block with leaves returning INVALID, judged "
+                   "by the Python oracle alone"]
 
     def profile_for(self, rng):
         x = rng.random()
